@@ -2836,7 +2836,9 @@ public:
       switch (token) {
       case hexasm::Token::SP_VALUE: {
         // SP value.
-        cb.genInstrData(MAX_ADDRESS - cg.getGlobalsOffset() - 1);
+        // Leave room above the initial frame for the link, return value and
+        // argument slots used by the exit stub.
+        cb.genInstrData(MAX_ADDRESS - cg.getGlobalsOffset() - 1 - FB_PARAM_OFFSET_FUNC);
         // Emit data directives for globals, constants and strings.
         for (auto &data : cg.getCodeBuffer().getData()) {
           cb.insertInstr(std::move(data));
